@@ -475,6 +475,17 @@ _ROUND11 = {
     "C16": " In a third of the cases the logger prints records in all three formats before its zone mode and layout are set in place.",
     "C18": " The generated paths are also asked about INSIDE the SaveFlagsAndMod scopes through which the flags are set (other privacy flags in force there).",
 }
+_ROUND14 = {
+    "C02": " The process-wide debug mode is read (is.DebugMode()) when admission is judged; how it gets switched is C01's subject.",
+    "C03": " A writer registered k > 1 times in the selected list gets the record at least once and at most k times (the statement speaks of the selected SET; whether a duplicate registration is kept or folded it leaves open).",
+    "C10": " The process-wide debug mode is read (is.DebugMode()) when admission is judged. The time style of a new child is not assumed until it is set.",
+    "C13": " The process-wide debug mode is read when admission is judged. A writer registered k > 1 times gets the record 1..k times; only a destination listed once is withdrawn. A WriteInternal call on a logger whose level refuses the severity either reaches every selected destination or none.",
+    "C15": " The process-wide debug mode is read when admission is judged. A record of a level without a namesake may be dropped by an Off logger (C01: an Off logger admits nothing); a record handed to Handle directly at a refused standard level may be dropped or written.",
+    "C17": " The process-wide debug mode is read when the gate model is consulted.",
+    "C18": " Names of the shapes the regexp mappings are written for are also drawn as relative names.",
+}
+for _pid, _txt in _ROUND14.items():
+    _ROUND9[_pid] = _ROUND9.get(_pid, "") + _txt
 for _pid, _txt in _ROUND11.items():
     _ROUND9[_pid] = _ROUND9.get(_pid, "") + _txt
 for _pid, _txt in _ROUND10.items():
